@@ -223,8 +223,12 @@ def entry_job(arg):
             nontrivial += 1
             dist[kind + 's'] += 1
             o = val(v)
+            if kind == 'substitution':
+                k = 'letter_substitutions' if n[i] not in DIGITS else 'digit_substitutions'
+                dist[k] = dist.get(k, 0) + 1
             if o[0] != 'ok':
                 dist['rejected'] += 1
+                dist['rejected_with:' + o[1]] = dist.get('rejected_with:' + o[1], 0) + 1
                 if o[0] == 'exc':
                     dist['rejected_by_non_validation_exception'] += 1
                 continue
